@@ -154,8 +154,12 @@ Inductive ev :=
   | EStop                              (* close(quit) *)
   (* a Broadcast request split at the handler's cfg.Broadcast call *)
   | EBcStart (tx : Z)                  (* the handler takes the request and enters cfg.Broadcast(tx) *)
-  | EBcRet (o : outcome).              (* that call returns o; the handler replies on errChan
+  | EBcRet (o : outcome)               (* that call returns o; the handler replies on errChan
                                           (capacity 1: never waits for the caller) *)
+  | ESubCancel.                        (* environment: the block subscription is cancelled from
+                                          outside (its channel closed, SubscribeBlocks fails from
+                                          now on); the handler notices, logs, and goes on serving
+                                          every other case: no state changes, nothing observable *)
 
 Inductive wstate :=
   | WIdle                              (* no worker; semaphore available *)
@@ -256,7 +260,7 @@ Definition step0 (s : st) (e : ev) : st * obs :=
   | EStop => if stopped s then (s, OStop) else
     ({| pending := pending s; wk := wk s; nsort := nsort s; snap := snap s; sent := sent s;
         hbusy := hbusy s; stopped := true |}, OStop)
-  | EBcStart _ | EBcRet _ => (s, ONone)
+  | EBcStart _ | EBcRet _ | ESubCancel => (s, ONone)
   end.
 
 Definition set_busy (s : st) (b : option Z) : st :=
